@@ -475,6 +475,45 @@ def run_shard(args):
             bad = [e for e in res.logs.get("test_a.py", []) if e[1] == "exc"]
             if bad:
                 out["violations"].append({"kind": "comparison-raised", "detail": {"F": sorted(F), "events": bad[:3]}, "witness": wit, "finding": None})
+    # ---- star-expressions that expand to exactly one / two elements (the container has as many values as element
+    # nodes, so a length test does not see the star), in snapshots that are never compared, compared equal and
+    # compared unequal (seeded round 6)
+    if args.shard in (4, 5, 6, 7) or tier == "thorough":
+        ssrc = (
+            HEADER + "ONE = [7]\nTWO = [1, 2]\n"
+            "S0 = snapshot([*ONE, 2])\nS1 = snapshot((*ONE, 'q'))\nS2 = snapshot([[*ONE, 1 + 1], 3])\nS3 = snapshot({'k': [*ONE, 0 + 2]})\n"
+            "S4 = snapshot([[*ONE, 2], 1 + 2])\nS5 = snapshot([*TWO, 1 + 2])\nS6 = snapshot([*ONE, f'{ONE[0]}'])\n\n\ndef test_a():\n"
+            "    rec(7, lambda: [7, 2] == snapshot([*ONE, 1 + 1]))\n"
+            "    rec(8, lambda: [7, 3] == snapshot([*ONE, 2]))\n"
+            "    rec(9, lambda: [1, 2, 5] == snapshot([*TWO, 2 + 3]))\n"
+            "    rec(10, lambda: {'a': (7, 1), 'b': 4} == snapshot({'a': (*ONE, 0 + 1), 'b': 3}))\n"
+        )
+        stars = [["[*ONE, 2]"], ["(*ONE, 'q')"], ["[*ONE, 1 + 1]"], ["[*ONE, 0 + 2]"], ["[*ONE, 2]"], ["[*TWO, 1 + 2]"], ["[*ONE, f'{ONE[0]}']"], ["[*ONE, 1 + 1]"], ["[*ONE, 2]"], ["[*TWO, 2 + 3]"], ["(*ONE, 0 + 1)"]]
+        import warnings as _w
+
+        for F in [frozenset(["update"]), frozenset(CATS), frozenset(["fix"]), frozenset(["create", "fix"]), frozenset(["fix", "update"])]:
+            with _w.catch_warnings():
+                _w.simplefilter("ignore")
+                res = inproc.run({"test_a.py": ssrc}, F)
+            C["runs"] += 1
+            wit = {"files": {"test_a.py": ssrc}, "flags": sorted(F)}
+            if res.exec_exc or res.crashed():
+                C["crashed"] += 1
+                continue
+            new_src = res.files_after["test_a.py"].decode()
+            try:
+                new_args, _ = program.outer_snapshot_args(new_src)
+            except SyntaxError as e:
+                out["violations"].append({"kind": "unparsable", "detail": {"error": str(e), "F": sorted(F), "new": new_src[:1500]}, "witness": wit, "finding": None})
+                continue
+            old_args, _ = program.outer_snapshot_args(ssrc)
+            for oa, na, keep in zip(old_args, new_args, stars):
+                out["evaluations"] += 1
+                C["unmanaged_checked"] += 1
+                C["short_star_sites"] = C.get("short_star_sites", 0) + 1
+                out["signatures"].add(f"star/expands-to-as-many-values-as-nodes/{oa}/{'+'.join(sorted(F))}")
+                if na is None or any(k not in na for k in keep):
+                    out["violations"].append({"kind": "unmanaged-expression-not-kept-verbatim", "detail": {"F": sorted(F), "old_arg": oa, "new_arg": na, "case": "container with a star-expression that expands to one / two elements"}, "witness": wit, "finding": None})
     # ---- real sessions: snapshots created during collection (module level, parametrize arguments) and compared by a
     # later test; the fixture, the report and the per-category application of the plugin are in the loop
     from .. import session
